@@ -58,6 +58,21 @@ Clauses(r) ==
          LET e == P2PKHOfPubKey(r.in.pub, r.in.accept) IN
          << <<"from_pubkey", IF e.ok THEN (r.out.k = "ret" /\ r.out.text = ToText(r.chain, e.a))
                              ELSE (r.out.k = "exc" /\ r.out.cls = "CBitcoinAddressError")>> >>
+    [] r.op = "x.opn" ->
+         << <<"is_small_int", r.out.small = IsSmallIntOp(r.in.op)>>,
+            <<"decode_op_n", IF IsSmallIntOp(r.in.op) THEN r.out.n = NOfOp(r.in.op) ELSE r.out.n = -1>>,
+            <<"encode_op_n", IF r.in.op <= 16 THEN r.out.enc = OpNOf(r.in.op) ELSE r.out.enc = -1>> >>
+    [] r.op = "x.pushdata" -> << <<"encode_op_pushdata", r.out.enc = PushEnc(r.in.d)>> >>
+    [] r.op = "x.wpred" ->
+         << <<"is_witness_v0_nested_keyhash", r.out.nkh = IsNestedV0KeyHash(r.in.s)>>,
+            <<"is_witness_v0_nested_scripthash", r.out.nsh = IsNestedV0ScriptHash(r.in.s)>>,
+            <<"witness_version", IsWitnessProgram(r.in.s) => r.out.ver = WitnessVersionOf(r.in.s)>> >>
+    [] r.op = "x.repr" ->
+         LET ok == RawOps(r.in.s).ok e == ReprOfScript(r.in.s) t == r.out.text IN
+         << <<"repr-of-parsing-script", ok => t = e>>,
+            \* malformed tail: the parsed elements first, then an error element, then the closing brackets
+            <<"repr-of-malformed-script", ~ok => (Len(t) > Len(e) /\ SubSeq(t, 1, Len(e) - 2) = SubSeq(e, 1, Len(e) - 2)
+                                                  /\ SubSeq(t, Len(t) - 2, Len(t)) = <<62, 93, 41>>)>> >>
     [] OTHER -> << <<"unknown-op", FALSE>> >>
 TraceInit == l = TraceStart
 TraceNext == l <= Len(Recs) /\ Judge(Recs[l], Clauses(Recs[l])) /\ l' = l + 1
